@@ -385,4 +385,47 @@ theorem runL_strip (hash : Bytes → H) (legacy : Bool) :
         · simp [runL, stripExpire, hr, hl, ih _ hw']
         · simpa [runL, stripExpire, hr, hl] using ih v hw'
 
+/-! ### endpoint failure → error reports → disconnect -/
+
+omit [DecidableEq H] in
+theorem streamsAfterReports_prefix (failed : Nat) (reports : List Nat) :
+    ∀ (eps : List (Endpoint H P)) (i : Nat), ∀ s ∈ streamsAfterReports failed reports i eps,
+      ∃ ep ∈ eps, s <+: ep.before ++ ep.after := by
+  intro eps
+  induction eps with
+  | nil => intro i s hs; simp [streamsAfterReports] at hs
+  | cons ep eps ih =>
+    intro i s hs
+    simp only [streamsAfterReports, List.mem_cons] at hs
+    rcases hs with h | h
+    · refine ⟨ep, by simp, ?_⟩
+      subst h
+      split
+      · exact List.prefix_append _ _
+      · exact List.prefix_refl _
+    · obtain ⟨ep', h1, h2⟩ := ih (i + 1) s h
+      exact ⟨ep', List.mem_cons_of_mem _ h1, h2⟩
+
+omit [DecidableEq H] in
+theorem streamsAfterReports_get (failed : Nat) (reports : List Nat) :
+    ∀ (eps : List (Endpoint H P)) (i j : Nat) (ep : Endpoint H P),
+      eps[j]? = some ep → i + j ≠ failed → i + j ∉ reports →
+      (streamsAfterReports failed reports i eps)[j]? = some (ep.before ++ ep.after) := by
+  intro eps
+  induction eps with
+  | nil => intro i j ep h; simp at h
+  | cons e eps ih =>
+    intro i j ep h hf hr
+    cases j with
+    | zero =>
+      simp at h; subst h
+      have : ¬ (i = failed ∨ i ∈ reports) := by
+        intro hc; rcases hc with hc | hc
+        · exact hf (by omega)
+        · exact hr (by simpa using hc)
+      simp [streamsAfterReports, this]
+    | succ j =>
+      simp only [streamsAfterReports, List.getElem?_cons_succ] at h ⊢
+      exact ih (i + 1) j ep h (by omega) (by rw [show i + 1 + j = i + (j + 1) by omega]; exact hr)
+
 end Dos.Events
